@@ -95,6 +95,7 @@ def run(ck):
                     alt = "sums of squared deviations"
                 elif T.ratfun_equal(v_, pv):
                     alt = "population variances"
+        ck.__dict__["_c13_conv"] = alt or "unbiased variances"
         if alt is not None:
             ck.undecided("C13.R5", "variance convention", usite, "_update_statistics merges %s (the pairwise update is right for them); whether every caller converts its unbiased chunk variances on the way in and the result on the way out is not decided" % alt)
         for p in paths:
@@ -379,6 +380,27 @@ def _check_driver(ck, inst, ssite, p, owner, init, ow, nch):
                 owners = set().union(*[own[key_][a_] for a_ in srcs])
                 ck.check(owners == {id(o_.inst)}, "C13.R4", inst + ":%s of %r comes from the observable registered under that name" % (key_, nm_), ssite,
                          "the %s reported under %r is merged from the chunk statistics of another observable: names and values are matched in different orders" % (key_, nm_))
+    if len(ups) == 2 * nobs and not vec and len(sfs) == 2 * nobs:
+        # the second moment handed to the merge is the chunk's unbiased variance in the form the merge routine works with (as is;
+        # times n - 1 for sums of squared deviations; times (n - 1) / n for population variances): a caller left on another form
+        # than the routine's merges quantities of two kinds
+        conv = ck.__dict__.get("_c13_conv", "unbiased variances")
+        forms = {"unbiased variances": lambda v_, n_: v_, "sums of squared deviations": lambda v_, n_: v_ * (n_ - 1), "population variances": lambda v_, n_: v_ * (n_ - 1) / n_}
+        for j, (c, sf) in enumerate(zip(ups, sfs)):
+            res_ = sf[4]
+            cv_ = num_term(res_.obj.items.get("variance")) if isinstance(res_, VDict) and res_.obj.items and res_.obj.items.get("variance") is not None else None
+            vb_, lb_ = num_term(argp(c[5], 4)), num_term(argp(c[5], 5))
+            if cv_ is None or vb_ is None or lb_ is None:
+                continue
+            hit = [k_ for k_, f_ in forms.items() if vb_ == f_(cv_, lb_) or T.ratfun_equal(vb_, f_(cv_, lb_))]
+            if conv in hit:
+                ck.ok("C13.R4", inst + ":chunk variance handed over as %s #%d" % (conv, j), ssite)
+            elif hit:
+                ck.violation("C13.R4", inst + ":chunk variance handed over as %s #%d" % (conv, j), ssite,
+                             "_update_statistics merges %s, but this caller hands it the chunk's %s: variance and standard error come out wrong as soon as there is more than one draw" % (conv, hit[0]),
+                             key="C13.R4|%s|merge convention" % owner)
+            else:
+                ck.undecided("C13.R4", inst + ":chunk variance handed over as %s #%d" % (conv, j), ssite, "what is handed to the merge (%s) is not a recognised form of the chunk variance" % (str(vb_)[:120],))
     if len(ups) == 2 * nobs and not vec:
         nc_t = num_term(argp(ups[0][5], 5))
         from ..values import dim_size
